@@ -116,7 +116,7 @@ store_call.modifies = ["ghost_recent", "engine_id", "run_id", "run_started", "ru
 OLDROW = f"old({ROW})"
 restore = Contract(
     target=A + "FromEngine._try_restore_reconnected_engine_data", types=T, ghost_init=slot_axioms, raises={},
-    calls=dict(BASE_CALLS, **{"repo.get_recent_engine_by_engine_id": tbl_get}),
+    calls=dict(BASE_CALLS, **{"*.get_recent_engine_by_engine_id": tbl_get}),
     ensures=[("a-stored-run-is-continued-under-the-same-run-id",
               f"implies({OLDROW} is not None and {OLDROW}.run_id is not None, {HAS_RUN} and engine_data._run_data.run_id == {OLDROW}.run_id)"),
              ("the-stored-start-time-is-kept",
@@ -133,7 +133,7 @@ KNOWN0 = "old(has_key(self._engine_data_map, engine_id))"
 disconnected = Contract(
     target=A + "FromEngine.engine_disconnected", types=dict(T, engine_id="str"), ghost_init=slot_axioms,
     requires=[KEYED, "engine_id != ''", "table_wf()"],
-    calls=dict(BASE_CALLS, **{"repo.store_recent_engine": store_call, "self.publish_engine_disconnected_notification": noop}),
+    calls=dict(BASE_CALLS, **{"*.store_recent_engine": store_call, "self.publish_engine_disconnected_notification": noop}),
     raises={},
     ensures=[("known-engine:row-carries-the-active-run-id",
               f"implies({KNOWN0} and old(self._engine_data_map[engine_id]._run_data is not None), "
@@ -148,7 +148,7 @@ disconnected = Contract(
 register = Contract(
     target=A + "FromEngine.register_engine_data", types=T, ghost_init=slot_axioms, raises={},
     requires=[KEYED],
-    calls=dict(BASE_CALLS, **{"repo.get_recent_engine_by_engine_id": tbl_get}),
+    calls=dict(BASE_CALLS, **{"*.get_recent_engine_by_engine_id": tbl_get}),
     ensures=[("registered-under-its-id", "self._engine_data_map[engine_data.engine_id] is engine_data"),
              ("a-stored-run-is-continued-under-the-same-run-id",
               f"implies({OLDROW} is not None and {OLDROW}.run_id is not None, {HAS_RUN} and engine_data._run_data.run_id == {OLDROW}.run_id)"),
@@ -166,7 +166,7 @@ shutdown = Contract(
     target=A + "Aggregator.shutdown", types=AG_T, ghost_init=slot_axioms, raises=None,
     requires=["all(self._engine_data_map[k].engine_id == k for k in self._engine_data_map)",
               "all(k != '' for k in self._engine_data_map)", "table_wf()"],
-    calls=dict(BASE_CALLS, **{"repo.store_recent_engine": store_call}),
+    calls=dict(BASE_CALLS, **{"*.store_recent_engine": store_call}),
     ensures=[("every-registered-engine's-row-carries-its-active-run-id",
               f"all({STORED} for j in range(len(self._engine_data_map)))")],
     loops={"for engine_data in self._engine_data_map.values()": LoopSpec(
